@@ -120,6 +120,18 @@ def pw_table(F, fid, extra=(), hook=None, arg_index=0, nargs=1, limit=1 << 40):
         except Undecided as e:
             raise AnchorLost("%s cannot be evaluated at %d: %s" % (fid, w, e))
         done[w] = _lin_result(r)
+        # a result that is itself a (monotone, slowly growing) term of the argument, e.g. ceil(bit_length / 7): its own steps are
+        # breakpoints too, so that every piece has one value
+        from peval import Wx, wx_direction, wx_threshold, wx_eval
+        k_ = result_kind(r)
+        pay = k_[1] if len(k_) > 1 else None
+        if isinstance(pay, Wx) and wx_direction(pay.term) == 1:
+            lo_v, hi_v = wx_eval(pay.term, 0), wx_eval(pay.term, limit)
+            if hi_v - lo_v <= 64:
+                for v_ in range(lo_v + 1, hi_v + 1):
+                    th = wx_threshold(pay.term, v_, limit)
+                    if th is not None:
+                        log.append(("Ge", th))
         for _op, c in log:
             if isinstance(c, int) and c not in consts:
                 consts.add(c)
@@ -134,6 +146,12 @@ def _lin_result(r):
         return ("err", v.variant if isinstance(v, Adt) else repr(v))
     if isinstance(v, Lin):
         return ("lin", v.a, v.b)
+    from peval import Wx
+    if isinstance(v, Wx):
+        from peval import wx_direction, wx_eval
+        if wx_direction(v.term) == 1 and wx_eval(v.term, 1 << 40) - wx_eval(v.term, 0) <= 64:
+            return ("lin", 0, v.val())        # constant on its piece (pw_table adds the term's own steps as breakpoints)
+        return ("other", repr(v))
     if isinstance(v, bool):
         return ("bool", v)
     if isinstance(v, int):
